@@ -27,6 +27,9 @@ import (
 type Step struct {
 	Deco string    `json:"deco,omitempty"` // order limit unscoped select omit table scopes empty_slice
 	Call *whr.Call `json:"call,omitempty"`
+	// Scope (with Call): the call reaches the chain through Scopes(...): 1 a scope applies it,
+	// 2 a scope registers a second scope that applies it
+	Scope int `json:"scope,omitempty"`
 }
 
 type Input struct {
@@ -132,6 +135,19 @@ func (*THS) AfterSave(*gorm.DB) error    { return nil }
 func (*THS) BeforeDelete(*gorm.DB) error { return nil }
 func (*THS) AfterDelete(*gorm.DB) error  { return nil }
 
+// T2S: the soft-delete table through a model with TWO soft-delete columns (target soft2)
+type T2S struct {
+	ID        int64 `gorm:"primaryKey"`
+	Age       int64
+	Name      string
+	Nick      *string
+	Mark      int64
+	DeletedAt gorm.DeletedAt
+	Archived  gorm.DeletedAt `gorm:"column:archived_at"`
+}
+
+func (T2S) TableName() string { return "tss" }
+
 func dumpAssoc(db *gorm.DB) string {
 	var sb strings.Builder
 	for _, q := range []string{"SELECT id, name, owner_id, IFNULL(deleted_at,'') FROM a_toys ORDER BY id", "SELECT id, name, mark, '' FROM aos ORDER BY id",
@@ -231,7 +247,17 @@ func (e *env) run(in Input) Obs {
 				inline = append([]interface{}{q}, args...)
 				continue
 			}
-			tx = s.Call.Apply(db, tx, byID)
+			call := *s.Call
+			switch s.Scope {
+			case 1:
+				tx = tx.Scopes(func(d *gorm.DB) *gorm.DB { return call.Apply(db, d, byID) })
+			case 2:
+				tx = tx.Scopes(func(d *gorm.DB) *gorm.DB {
+					return d.Scopes(func(d2 *gorm.DB) *gorm.DB { return call.Apply(db, d2, byID) })
+				})
+			default:
+				tx = call.Apply(db, tx, byID)
+			}
 			continue
 		}
 		switch s.Deco {
@@ -302,6 +328,8 @@ func (e *env) run(in Input) Obs {
 			tx = tx.Session(&gorm.Session{})
 		case "with_context":
 			tx = tx.WithContext(context.Background())
+		case "unscoped":
+			tx = tx.Unscoped()
 		}
 	}
 	model := func() interface{} {
@@ -426,6 +454,12 @@ func runTarget(tx *gorm.DB, in Input, table string) *gorm.DB {
 			return tx.Model(&whr.TS{ID: in.PK}).Delete(&whr.TS{})
 		}
 		return tx.Model(&whr.T{ID: in.PK}).Delete(&whr.T{})
+	case "soft2":
+		m := &T2S{ID: in.PK}
+		if in.Finisher == "delete" {
+			return tx.Delete(m)
+		}
+		return upd(tx.Model(m))
 	case "model_slice_dest":
 		// the key (if any) is in a slice given to Model, the deleted value carries none
 		if in.Soft {
@@ -538,7 +572,7 @@ func term(in Input, o Obs) string {
 		}
 	}
 	return lib.App("mk_case", whr.GTable(in.Atoms, o.Texts), whr.GCalls(calls, byID),
-		lib.Bool(in.Soft), lib.Bool(in.Allow != "off"), lib.Bool(hasUnscoped(in.Steps)), lib.Bool(in.PK != 0),
+		lib.Bool(in.Soft), lib.Bool(in.Allow != "off"), lib.Bool(hasUnscoped(in.Steps) || in.AfterRead == "unscoped"), lib.Bool(in.PK != 0),
 		lib.Bool(o.Missing), lib.Z(int64(o.Execs)), lib.Bool(o.Changed), lib.Bool(o.OtherErr != ""),
 		lib.ListOf([]byte(o.TxEvents), func(b byte) string { return lib.Z(int64(strings.IndexByte("bcr", b))) }))
 }
@@ -596,6 +630,7 @@ var targets = []struct {
 	{"assoc_select", []string{"delete", "delete_toys", "delete_tags"}, []int64{0, 1}},
 	{"hooked", []string{"update", "updates_map", "update_column", "update_columns", "delete"}, []int64{0, 3}},
 	{"model_slice_dest", []string{"delete"}, []int64{0, 3}},
+	{"soft2", []string{"update", "updates_map", "update_column", "update_columns", "delete"}, []int64{0, 3}},
 }
 
 func main() {
@@ -604,7 +639,7 @@ func main() {
 	for _, k := range []string{"off", "config"} {
 		db, rec, _, err := gdb.Open(gdb.Opt{Config: &gorm.Config{AllowGlobalUpdate: k == "config", Logger: logger.Discard}})
 		lib.Must(err)
-		lib.Must(db.AutoMigrate(&whr.T{}, &whr.TS{}, &AO{}, &AOS{}, &AToy{}, &AKid{}, &ATag{}))
+		lib.Must(db.AutoMigrate(&whr.T{}, &whr.TS{}, &AO{}, &AOS{}, &AToy{}, &AKid{}, &ATag{}, &T2S{}))
 		e.dbs[k], e.rec[k] = db, rec
 	}
 	out := lib.NewOut(a.Out, "C09")
@@ -697,7 +732,7 @@ func main() {
 						if len(ch) <= 1 && pk == 0 && al == "off" && f != "updates_struct_nomodel" {
 							add("enum", Input{Soft: soft, Allow: al, Finisher: f, PK: pk, Steps: ch, QueryFirst: true})
 							for _, rk := range []string{"", "noop_update"} {
-								for _, ar := range []string{"session", "with_context"} {
+								for _, ar := range []string{"session", "with_context", "unscoped"} {
 									add("enum", Input{Soft: soft, Allow: al, Finisher: f, PK: pk, Steps: ch, QueryFirst: true, ReadKind: rk, AfterRead: ar})
 								}
 							}
@@ -730,6 +765,9 @@ func main() {
 				for _, soft := range []bool{false, true} {
 					if soft && tg.name == "table_only" {
 						continue // no schema, hence no soft delete
+					}
+					if !soft && tg.name == "soft2" {
+						continue // (the two-column model is a soft-delete model)
 					}
 					for _, al := range allows {
 						for _, pk := range tg.pks {
@@ -828,6 +866,15 @@ func main() {
 		}
 		if in.Finisher == "delete" && in.Target == "" && !in.QueryFirst && r.Bool() {
 			in.InlineLast = true // takes effect when the last step is a Where call
+		}
+		if !in.InlineLast && !in.QueryFirst && r.Chance(1, 4) {
+			// one condition call travels through a scope (plain or composed)
+			for i := range in.Steps {
+				if in.Steps[i].Call != nil && in.Steps[i].Call.Kind == "where" {
+					in.Steps[i].Scope = r.Range(1, 2)
+					break
+				}
+			}
 		}
 		add("main", in)
 	}
